@@ -18,8 +18,8 @@ for lg in logs:
             first_seen.setdefault(m.group(1), {}).setdefault(m.group(2), rec)
 rows = []
 SUMM = json.load(open("/verif/tools/seed_summaries.json")) if os.path.exists("/verif/tools/seed_summaries.json") else {}
-ROUNDS = os.environ.get("ROUNDS", "r1,r2,r3,r4,r5,r6,r7,r8").split(",")  # ROUNDS=r6 collects one round only (the logs of the others are gone)
-for rnd, base in (("r1", "/tmp/mutout"), ("r2", "/tmp/mutout2"), ("r3", "/tmp/mutout3"), ("r4", "/tmp/mutout4"), ("r5", "/tmp/mutout5"), ("r6", "/tmp/mutout6"), ("r7", "/tmp/mutout7"), ("r8", "/tmp/mutout8")):
+ROUNDS = os.environ.get("ROUNDS", "r1,r2,r3,r4,r5,r6,r7,r8,r9").split(",")  # ROUNDS=r6 collects one round only (the logs of the others are gone)
+for rnd, base in (("r1", "/tmp/mutout"), ("r2", "/tmp/mutout2"), ("r3", "/tmp/mutout3"), ("r4", "/tmp/mutout4"), ("r5", "/tmp/mutout5"), ("r6", "/tmp/mutout6"), ("r7", "/tmp/mutout7"), ("r8", "/tmp/mutout8"), ("r9", "/tmp/mutout9")):
     if rnd not in ROUNDS:
         continue
     for d in sorted(glob.glob(base + "/C*/m[12]")):
